@@ -81,7 +81,7 @@ def run(tier, seed):
     rng = SplitMix64(seed)
     # (a) enum corruption
     reqs, meta = [], []
-    per = 3 if tier == "quick" else 12
+    per = 3 if tier == "quick" else 40
     for c in ok:
         if " enum " not in " " + " ".join(c["tokens"]) + " ":
             continue
@@ -138,7 +138,7 @@ def run(tier, seed):
         if not g.startswith("ok"):
             continue
         body = bytes.fromhex(g.split()[1]) if g.split()[1] != "-" else b""
-        deltas = [-1, 1] if tier == "quick" else [-4, -3, -2, -1, 1, 2, 3, 4]
+        deltas = [-1, 1] if tier == "quick" else [-64, -16, -8, -4, -3, -2, -1, 1, 2, 3, 4, 8, 16, 64, 1000]
         for dl in deltas:
             nb = body[:L + dl] if dl < 0 else body + bytes([0] * dl)
             if len(nb) == L or (dl < 0 and L + dl < 0):
